@@ -4,7 +4,8 @@ SPECIFICATION TSpec
 CONSTANTS
   Ids <- TraceIds
   Cons <- TraceCons
-  UnsatFamily <- TraceFamily
+  UnsatFamily = {}
+  Unsat <- TraceUnsat
   PinFutures = TRUE
   PinTermVars = TRUE
   MaxTests = 1000000
